@@ -41,6 +41,9 @@ RUN_PROFILES = {
     "observers": dict(observers=0.35, imm=0.0),
     "observers_loops": dict(observers=0.35, imm=0.0, w={"count": 3, "while": 2, "cond": 2}),
     "listeners": dict(listeners=0.4, imm=0.0),
+    # which exit of the production task fires last: tasks ending in parallel loops, called last
+    "observers_parloop": dict(observers=0.35, imm=0.1, parloop_shapes="all", max_block=2, max_tasks=4,
+                              w={"parloop": 4, "call": 5, "service": 3, "cond": 1, "parallel": 1}),
 }
 
 PROPS = {
@@ -74,8 +77,8 @@ PROPS = {
                 profiles=["params", "params_indexed", "hostile_append", "hostile_clear", "hostile_replace"],
                 quick=240, thorough=6000, finding_profiles=["parloop_all"]),
     "C17": dict(kind="run", proj="P_C17", mon="mon_C17", property_files=("C20net", "C17obs"), extra_kinds=("obs",), py_monitor="petri_net_notices",
-                profiles=["observers", "observers_loops"], quick=200, thorough=5000),
-    "C20": dict(kind="run", proj="P_C20", mon="mon_C20", property_files=("C20net",),
+                profiles=["observers", "observers_loops"], quick=200, thorough=5000, finding_profiles=["observers_parloop"]),
+    "C20": dict(kind="run", proj="P_C20", mon="mon_C20", property_files=("C20net", "C20reg"), extra_kinds=("reg",),
                 profiles=["listeners"], quick=200, thorough=5000, finding_profiles=["listeners_imm"]),
     # C13: expressions in isolation (kind expr) + guards evaluated repeatedly in running orders
     # (Conditions and loops re-evaluated against current values), compared on oracle queries
@@ -90,8 +93,8 @@ OBLIGATIONS = {
     "C03": ["Wiring", "Eval"], "C04": ["Wiring", "Eval", "Decide"], "C05": ["Wiring", "Eval", "Decide"],
     "C06": ["Wiring", "Eval", "ParLoop"], "C07": ["Wiring", "Eval", "Started", "Finished"],
     "C08": ["Gate", "Events", "Register"], "C13": ["Ops", "Front", "Decide"], "C14": ["Started", "Wiring", "Eval"],
-    "C15": ["Subst", "Started", "ParLoop", "Eval", "Wiring"], "C17": ["Finished", "Started", "Notify"], "C20": ["Finished", "Started", "Register"],
-    "C18": ["Gate", "Wiring"], "C12": ["Front"],
+    "C15": ["Subst", "Started", "ParLoop", "Eval", "Wiring"], "C17": ["Finished", "Started", "Notify", "Wiring"], "C20": ["Finished", "Started", "Register"],
+    "C18": ["Gate", "Wiring"], "C12": ["Front", "CharLexer"],
 }
 RUNTIME = {"run": ["NetRun.vo", "Monitors.vo"], "config": ["NetRun.vo", "Monitors.vo"],
            "expr": ["Expr.vo", "NetRun.vo", "Monitors.vo"]}
